@@ -20,6 +20,21 @@ and just above 2**32 / up to 2**63 (same 64-bit prefixes).  Within each pair the
 counts, so the counters and the implementation-independent number of calls must coincide (up to noise); the small pair
 is measured first, so that a reader whose cost grows with the capacities is caught before it is given 2**32 elements.
 
+Wide cases (`kind: wide`, and `kind: ns` with `wide`): cost must be independent of the capacities also when MANY
+capacity-carrying members sit side by side.  10-40 members - variable-length arrays of 1-bit / 8-bit / odd-width /
+multi-byte primitives, some fixed arrays, scalars and voids - form a structure, a union, a delimited type, a member or an
+array element of an outer structure (one level down), runs cut by composite-typed members, or a union of two wide
+structures.  The four capacity scales of the namespace cases are used; the script is the one above plus !=, dict / set
+lookup, `% 8`, == / hash of members and of their types, min / max / == / hash / % of the offset of the first, a middle and
+the LAST member, the inner type of a delimited type, composites one level down.  The namespace rendering adds a service
+whose sections consist of the members themselves and a definition that nests the type in arrays.
+Oracle for these: besides the comparisons across scales, the work at EVERY scale has to stay within a budget derived from
+the shape alone (SpecCost: the uncached work of a pairwise symbolic analysis of the Specification's expression at the
+smallest scale, times WIDE_SLACK) - an analysis whose work is a product over the members rather than a sum exceeds it by
+orders of magnitude.  The counters raise Blowup when the budget is exhausted (and a bound on the number of calls, should the
+enumeration bypass the counters), so that an analysis that would take hours is reported within a second, with the type and
+the query that caused it.
+
 Model side: Op.cost of the same query script (uncached, so an upper bound for the memoised library).
 Oracle (independent of the model): the work at the huge scale does not exceed the work at the moderate scale
 (repetition counts are congruent modulo 32 and saturated, so the library's `equivalent k` is the same), expansion is never called, and
@@ -39,17 +54,34 @@ WORK_BUDGET = 40_000_000
 TIME_BUDGET_S = 20.0
 
 
-class Meter:
-    """Counts enumeration work inside pydsdl._bit_length_set._symbolic while active."""
+class Blowup(BaseException):
+    """Raised from the counters when the work of a script exceeds the limit it was given (BaseException: no handler of the
+    library may swallow it).  The run is abandoned and reported as an outcome of its own."""
 
-    def __init__(self, pydsdl):
+
+class Meter:
+    """Counts enumeration work inside pydsdl._bit_length_set._symbolic while active.
+    `limit`: bound on items + leaf, `calls_limit`: bound on the number of calls; beyond either, Blowup is raised from
+    the counter (so that an analysis that would take hours is cut short and reported with the type that caused it)."""
+
+    def __init__(self, pydsdl, limit: typing.Optional[int] = None, calls_limit: typing.Optional[int] = None):
         import importlib
 
         self.sym = importlib.import_module("pydsdl._bit_length_set._symbolic")
         self.items = 0
         self.leaf = 0
         self.expands = 0
+        self.limit = limit
+        self.calls_limit = calls_limit
+        self.blown: typing.Optional[str] = None
+        self.where = ""            # set by the script: what it is doing (for the Blowup message)
         self._saved: list = []
+
+    def _over(self, what: str):
+        self.blown = what
+        msg = "%s beyond the limit (%s)%s" % (what, self.limit if what == "items" else self.calls_limit, " during " + self.where if self.where else "")
+        self.limit = self.calls_limit = None       # raise once
+        raise Blowup(msg)
 
     def __enter__(self):
         """Installs the counters.  Every hook is optional: when an internal name it needs does not exist (the module was
@@ -70,18 +102,29 @@ class Meter:
             def product(*a, **k):
                 for t in real.product(*a, **k):
                     meter.items += len(t)
+                    if meter.limit is not None and meter.items + meter.leaf > meter.limit:
+                        meter._over("items")
                     yield t
 
             @staticmethod
             def combinations_with_replacement(it, r):
                 for t in real.combinations_with_replacement(it, r):
                     meter.items += len(t)
+                    if meter.limit is not None and meter.items + meter.leaf > meter.limit:
+                        meter._over("items")
                     yield t
 
-        if getattr(self.sym, "itertools", None) is real:
-            self._saved.append((self.sym, "itertools", self.sym.itertools))
-            self.sym.itertools = Proxy()
-        else:
+        # whatever name the module uses for itertools or for the two functions (import itertools as x / from itertools import ...)
+        hooked = 0
+        proxy = Proxy()
+        for name, val in list(vars(self.sym).items()):
+            repl = proxy if val is real else Proxy.product if val is real.product else \
+                Proxy.combinations_with_replacement if val is real.combinations_with_replacement else None
+            if repl is not None:
+                self._saved.append((self.sym, name, val))
+                setattr(self.sym, name, repl)
+                hooked += 1
+        if not hooked:
             self.degraded.append("itertools")
         nul = getattr(self.sym, "NullaryOperator", None)
         if nul is not None:
@@ -119,6 +162,8 @@ class Meter:
         def prof(frame, event, arg):
             if event == "call" or event == "c_call":
                 meter.calls += 1
+                if meter.calls_limit is not None and meter.calls > meter.calls_limit:
+                    meter._over("calls")
 
         self._prof_prev = sys.getprofile()
         sys.setprofile(prof)
@@ -214,6 +259,370 @@ def predicted_cost(t) -> int:
         for o in L.s_field_offsets(st, [0], on):
             total += B._cost(on, o, 8, {})
     return total
+
+
+# ------------------------------------------------------------------------------- wide shapes: the oracle's budget
+
+class SpecCost:
+    """The oracle's own reading of the work of a symbolic analysis: the Specification's expression of a type (fields added
+    one by one, L.s_nodes) is evaluated modulo d with residue sets that never exceed d; counted is the number of integers
+    that pass through the pairwise products / multicombinations, WITHOUT any caching.  It depends on the shape, the
+    element widths and (through saturated, congruent repetition counts) not on the capacities."""
+
+    def __init__(self):
+        self.tab: list = []        # interned nodes: (kind, children, parameter); structurally equal nodes share one entry
+        self.ids: dict = {}
+        self.rmemo: dict = {}
+        self.cmemo: dict = {}
+
+    def intern(self, nodes: list, wanted: typing.List[int]) -> typing.List[int]:
+        """Entries of the nodes of a B-style node list (children precede parents); returns those of `wanted`."""
+        uid: typing.List[int] = []
+        for n in nodes:
+            k = n[0]
+            if k == "leaf":
+                key = (k, (), tuple(n[1]))
+            elif k in ("cat", "uni"):
+                key = (k, tuple(uid[j] for j in n[1]), None)
+            else:
+                key = (k, (uid[n[1]],), n[2])
+            if key not in self.ids:
+                self.ids[key] = len(self.tab)
+                self.tab.append(key)
+            uid.append(self.ids[key])
+        return [uid[i] for i in wanted]
+
+    def tree(self, st) -> int:
+        nodes: list = []
+        root = L.s_nodes(st, nodes)
+        return self.intern(nodes, [root])[0]
+
+    def offsets(self, st) -> typing.List[int]:
+        nodes: list = []
+        offs = L.s_field_offsets(st, [0], nodes)
+        return self.intern(nodes, offs)
+
+    def res(self, i, d):
+        key = (i, d)
+        if key in self.rmemo:
+            return self.rmemo[key]
+        import math
+
+        k, ch, par = self.tab[i]
+        if k == "leaf":
+            r = frozenset(v % d for v in par)
+        elif k == "pad":
+            l = par * d // math.gcd(par, d)
+            r = frozenset((-(-x // par) * par) % d for x in self.res(ch[0], l))
+        elif k == "cat":
+            r = frozenset([0])
+            for j in ch:
+                r = B._sumset(r, self.res(j, d), d)
+        elif k == "rep":
+            r = B._nsmul(self.res(ch[0], d), par, d)
+        elif k == "rrep":
+            r = B._nsmul(self.res(ch[0], d) | {0}, par, d)
+        elif k == "uni":
+            r = frozenset().union(*[self.res(j, d) for j in ch])
+        else:
+            raise ValueError(k)
+        self.rmemo[key] = r
+        return r
+
+    def cost(self, i, d) -> int:
+        key = (i, d)
+        if key in self.cmemo:
+            return self.cmemo[key]
+        import math
+
+        k, ch, par = self.tab[i]
+        try:
+            if k == "leaf":
+                c = len(par)
+            elif k == "pad":
+                l = par * d // math.gcd(par, d)
+                c = self.cost(ch[0], l) + len(self.res(ch[0], l))
+            elif k == "cat":
+                c = sum(self.cost(j, d) for j in ch)
+                p = 1
+                for j in ch:
+                    p *= len(self.res(j, d))
+                c += p * len(ch)
+            elif k in ("rep", "rrep"):
+                ek = min(par, d + par % d)
+                r = len(self.res(ch[0], d))
+                c = self.cost(ch[0], d)
+                if k == "rep":
+                    c += B.cwr_count(r, ek) * ek
+                else:
+                    c += sum(B.cwr_count(r, j) * j for j in range(ek + 1))
+            elif k == "uni":
+                c = sum(self.cost(j, d) for j in ch) + sum(len(self.res(j, d)) for j in ch)
+            else:
+                raise ValueError(k)
+        except (B.TooBig, OverflowError, MemoryError):
+            c = 10**15
+        self.cmemo[key] = c
+        return c
+
+
+def picks(n: int) -> typing.List[int]:
+    """Members looked at one by one by the extended script: the first, one in the middle, the last (a LATER field's offset
+    is what depends on everything in front of it)."""
+    return sorted({0, n // 2, n - 1}) if n else []
+
+
+def subtrees(t):
+    """Every array / composite node of a type tree."""
+    k = t[0]
+    if k in ("prim", "void"):
+        return
+    yield t
+    if k in ("farr", "varr", "delim"):
+        yield from subtrees(t[1])
+    else:
+        for f in t[1]:
+            yield from subtrees(f)
+
+
+def spec_work(t, extended: bool = True) -> int:
+    """Uncached work (SpecCost) of building `t` twice and running the query script on it (`extended`: the wide script)."""
+    st = L.strip(t)
+    sc = SpecCost()
+    root = sc.tree(st)
+    total = sc.cost(root, 8) + 2 * sc.cost(root, 32)
+    comp = st[0] in ("struct", "union", "delim")
+    offs = sc.offsets(st) if comp else []
+    total += sum(sc.cost(o, 8) for o in offs)
+    for x in subtrees(st):          # constructors may assert the alignment of whatever they are given
+        total += 2 * sc.cost(sc.tree(x), 8)
+    if not extended:
+        return total
+    total += 4 * sc.cost(root, 32) + 2 * sc.cost(root, 8)
+    if comp:
+        body = st[1] if st[0] == "delim" else st
+        if st[0] == "delim":
+            i = sc.tree(body)
+            total += 2 * sc.cost(i, 32) + 2 * sc.cost(i, 8)
+        for i in picks(len(body[1])):
+            f = sc.tree(body[1][i])
+            total += 4 * sc.cost(f, 32) + 2 * (sc.cost(offs[i], 32) + sc.cost(offs[i], 8))
+        for f in body[1]:
+            x = f[1] if f[0] in ("farr", "varr") else f
+            if x[0] in ("struct", "union", "delim"):
+                i = sc.tree(x)
+                total += 2 * sc.cost(i, 32) + 2 * sc.cost(i, 8)
+    return total
+
+
+WIDE_SLACK = 4            # the library may do this many times the uncached pairwise work ...
+WIDE_FLOOR = 20_000       # ... plus this much, before the oracle calls it a blow-up
+WIDE_GUARD = 1_200_000    # generator guard on spec_work
+WIDE_GUARD_S = 10
+
+
+def wide_budget(trees, extended: bool = True) -> int:
+    return WIDE_SLACK * sum(spec_work(x, extended) for x in trees) + WIDE_FLOOR
+
+
+# ------------------------------------------------------------------------------- wide shapes: generator and script
+
+_U8 = ["prim", 8, "uintsat"]
+WIDE_ELEMS = {
+    "bits": [["prim", 1, "bool"], ["prim", 1, "bool"], ["prim", 1, "uintsat"], ["prim", 2, "uintsat"], ["prim", 4, "uintsat"]],
+    "bytes": [_U8, _U8, ["prim", 8, "byte"], ["prim", 8, "utf8"], ["prim", 8, "intsat"], ["prim", 16, "uintsat"],
+              ["prim", 16, "floatsat"], ["prim", 32, "uintsat"], ["prim", 64, "floatsat"], ["prim", 24, "uintsat"]],
+    "words": [["prim", 16, "uintsat"], ["prim", 16, "floatsat"], ["prim", 32, "uintsat"], ["prim", 32, "floatsat"], ["prim", 64, "intsat"], _U8],
+    "odd": [["prim", 3, "uintsat"], ["prim", 5, "uintsat"], ["prim", 7, "intsat"], ["prim", 12, "uintsat"], ["prim", 13, "intsat"],
+            ["prim", 9, "uinttrunc"], ["prim", 17, "uintsat"], ["prim", 33, "intsat"], ["prim", 63, "uintsat"]],
+}
+WIDE_FORMS = ["struct", "struct", "struct", "union", "delim-struct", "delim-union", "nested", "nested-array", "cut", "union-of-wide"]
+
+
+def gen_wide_members(rng, n: int, union: bool = False, theme: typing.Optional[str] = None) -> list:
+    """`n` members side by side, most of them variable-length arrays of primitives (capacity 1 here; scale() sets them)."""
+    theme = theme or rng.choice(["bytes", "bits", "odd", "mixed", "mixed"])
+    p_var = rng.choice([1.0, 1.0, 0.85, 0.6])
+    out = []
+    for _ in range(n):
+        el = rng.choice(WIDE_ELEMS[theme if theme != "mixed" else rng.choice(["bytes", "bits", "odd"])])
+        r = rng.random()
+        if r < p_var:
+            out.append(["varr", el, 1])
+            continue
+        if el[2] == "utf8":
+            el = _U8
+        r = rng.random()
+        if r < 0.4:
+            out.append(["farr", el, 1])
+        elif r < 0.8 or union:
+            out.append(_U8 if el[2] == "byte" else el)      # (byte and utf8 are element types only)
+        else:
+            out.append(["void", rng.choice([1, 3, 8, 16])])
+    return out
+
+
+def gen_wide_shape(rng, form: str) -> typing.Tuple[list, str]:
+    n = rng.choice([rng.randint(10, 16), rng.randint(10, 16), rng.randint(17, 28), rng.randint(29, 40)])
+    if form == "struct":
+        return ["struct", gen_wide_members(rng, n)], form
+    if form == "union":
+        return ["union", gen_wide_members(rng, n, True)], form
+    if form == "delim-struct":
+        return ["delim", ["struct", gen_wide_members(rng, n)], 0], form
+    if form == "delim-union":
+        return ["delim", ["union", gen_wide_members(rng, n, True)], 0], form
+    small = rng.choice([["struct", [_U8]], ["struct", [["varr", _U8, 1]]], ["union", [_U8, ["prim", 16, "uintsat"]]],
+                        ["delim", ["struct", [["varr", ["prim", 1, "bool"], 1]]], 0]])
+    if form == "nested":          # the wide structure is a member (one level down), other members around it
+        w = ["struct", gen_wide_members(rng, n)]
+        if rng.random() < 0.3:
+            w = ["delim", w, 0]
+        fs = [w]
+        for _ in range(rng.randint(0, 2)):
+            fs.insert(rng.randrange(len(fs) + 1), rng.choice([_U8, ["prim", 1, "bool"], ["varr", _U8, 1], small]))
+        return [rng.choice(["struct", "struct", "union"]) if len(fs) >= 2 else "struct", fs], form
+    if form == "nested-array":    # an array of the wide structure: the array constructor looks at the element's alignment
+        # (an array of elements with many residues is costly for any solver: elements of whole words keep them few)
+        w = ["struct", gen_wide_members(rng, n, theme=rng.choice(["words", "words", "bytes", None]))]
+        fs = [[rng.choice(["varr", "farr"]), w, 1]]
+        if rng.random() < 0.6:
+            fs.insert(rng.randrange(2), rng.choice([_U8, ["prim", 3, "uintsat"], ["varr", ["prim", 1, "bool"], 1]]))
+        return ["struct", fs], form
+    if form == "cut":             # composite-typed members (byte aligned: padding in front) split the members into runs
+        fs = gen_wide_members(rng, n)
+        for _ in range(rng.randint(1, 3)):
+            fs.insert(rng.randrange(len(fs) + 1), small)
+        return ["struct", fs], form
+    ws = [["struct", gen_wide_members(rng, max(5, n // 2))] for _ in range(2)]
+    return ["union", ws], form
+
+
+def gen_wide_case(rng, prop, ns: bool):
+    form = rng.choice(WIDE_FORMS)
+    for attempt in range(300):
+        if attempt % 25 == 24:
+            form = rng.choice(WIDE_FORMS)      # this form keeps exceeding the guard: another one
+        shape, form = gen_wide_shape(rng, form)
+        try:
+            sseed = rng.randrange(10**6)
+            c = {"kind": "ns" if ns else "wide", "wide": form, "shape": shape, "sseed": sseed}
+            if ns:
+                c["nseed"] = rng.randrange(10**6)
+            for key, level in NS_LEVELS:
+                c[key] = scale(shape, level, random.Random(sseed))
+            if not all(L.s_valid(L.strip(c[k])) for k, _ in NS_LEVELS):
+                continue
+            if ns:
+                if L.nested_arrays(shape) or max(sum(spec_work(x, False) for x in render_wide_ns(c[k], c["nseed"], lv)[1])
+                                                  for k, lv in NS_LEVELS) > WIDE_GUARD:
+                    continue
+            elif max(spec_work(c[k]) for k, _ in NS_LEVELS) > WIDE_GUARD:
+                continue
+        except Exception:
+            continue
+        return c
+    raise RuntimeError("generator failed")
+
+
+def type_text(t) -> str:
+    """A type tree as text, for violation messages."""
+    k = t[0]
+    if k == "prim":
+        return t[2] if t[2] in ("bool", "byte", "utf8") else ("float" if t[2].startswith("float") else "int" if t[2].startswith("int") else "uint") + str(t[1])
+    if k == "void":
+        return "void%d" % t[1]
+    if k == "farr":
+        return "%s[%d]" % (type_text(t[1]), t[2])
+    if k == "varr":
+        return "%s[<=%d]" % (type_text(t[1]), t[2])
+    if k == "delim":
+        return "delimited(%d) %s" % (t[2], type_text(t[1]))
+    return "%s{%s}" % (k, "; ".join(type_text(f) for f in t[1]))
+
+
+def wide_queries(pydsdl, ty, ty2, out: list, m: Meter) -> None:
+    """The property's queries beyond script(): !=, dict / set lookup, explicit %, members' types and a LATER field's
+    offset (min / max / == / hash / %), the inner type of a delimited type, composites one level down."""
+    m.where = "!= / dict lookup / set membership of the type"
+    out += [bool(ty != ty2), {ty: 1}.get(ty2) == 1, ty2 in {ty}]
+    b = ty.bit_length_set
+    m.where = "bit_length_set % 8 / is_aligned_at(8) of the type"
+    out += [sorted(b % 8), bool(b.is_aligned_at(8))]
+    if not isinstance(ty, pydsdl.CompositeType):
+        return
+    if isinstance(ty, pydsdl.DelimitedType):
+        m.where = "== / hash / byte alignment of the inner type of the delimited type"
+        out += [bool(ty.inner_type == ty2.inner_type), hash(ty.inner_type) == hash(ty2.inner_type),
+                bool(ty.inner_type.bit_length_set.is_aligned_at_byte())]
+    fs, fs2 = ty.fields, ty2.fields
+    m.where = "field offsets"
+    offs = [o for _f, o in ty.iterate_fields_with_offsets()]
+    offs2 = [o for _f, o in ty2.iterate_fields_with_offsets()]
+    for i in picks(len(fs)):
+        m.where = "== / hash of member %d (%s) and of its type" % (i, fs[i])
+        out += [bool(fs[i].data_type == fs2[i].data_type), hash(fs[i].data_type) == hash(fs2[i].data_type),
+                bool(fs[i] == fs2[i]), hash(fs[i]) == hash(fs2[i])]
+        m.where = "min / max / == / hash / %% 8 of the offset of member %d (%s)" % (i, fs[i])
+        o, o2 = offs[i], offs2[i]
+        out += [o.min == o2.min, o.max == o2.max, bool(o == o2), hash(o) == hash(o2), sorted(o % 8)]
+    for i, (f, f2) in enumerate(zip(fs, fs2)):
+        x, x2 = f.data_type, f2.data_type
+        if isinstance(x, pydsdl.ArrayType):
+            x, x2 = x.element_type, x2.element_type
+        if isinstance(x, pydsdl.CompositeType):
+            m.where = "== / hash / byte alignment of the composite type of member %d (%s)" % (i, f)
+            out += [bool(x == x2), hash(x) == hash(x2), bool(x.bit_length_set.is_aligned_at_byte())]
+
+
+def wide_script(pydsdl, t, budget: int) -> dict:
+    """script() plus wide_queries() under a Meter that gives up beyond `budget`; the work of the part that the model's
+    cost covers (`items`) and of the rest (`x_items`) are reported separately."""
+    with Meter(pydsdl, limit=budget, calls_limit=4 * budget + 200_000) as m:
+        t0 = time.time()
+        m.where = "construction"
+        try:
+            ty = L.build_impl(pydsdl, t, L._Names())
+            ty2 = L.build_impl(pydsdl, t, L._Names())
+            build = m.snapshot()
+            b = ty.bit_length_set
+            m.where = "min / max / extent / fixed_length / byte alignment of the type"
+            out = [b.min, b.max, ty.extent if isinstance(ty, pydsdl.CompositeType) else b.max, bool(b.fixed_length), bool(b.is_aligned_at_byte())]
+            if isinstance(ty, pydsdl.CompositeType):
+                for f, o in ty.iterate_fields_with_offsets():
+                    m.where = "byte alignment of the offset of member %s" % f
+                    out.append(bool(o.is_aligned_at_byte()))
+            m.where = "== of two instances of the type"
+            out.append(bool(ty == ty2))
+            m.where = "hash of the type"
+            out.append(hash(ty) == hash(ty2))
+            main = m.snapshot()
+            wide_queries(pydsdl, ty, ty2, out, m)
+            total = m.snapshot()
+        except Blowup as ex:
+            return {"blowup": str(ex), "items": m.items, "leaf": m.leaf, "calls": m.calls, "expands": m.expands,
+                    "wall": time.time() - t0, "soft_degraded": list(m.degraded)}
+        wall = time.time() - t0
+        degraded = list(m.degraded)
+    return {"build_items": build[0], "build_leaf": build[1], "items": main[0] - build[0], "leaf": main[1] - build[1],
+            "x_items": total[0] - main[0], "x_leaf": total[1] - main[1],
+            "expands": total[2], "wall": wall, "answers": out, "calls": total[3], "soft_degraded": degraded}
+
+
+def wide_impl(pydsdl, case) -> dict:
+    import signal
+
+    # the budget is that of the SMALLEST scale: every scale has to live within it
+    budget = wide_budget([case["ty"]])
+    recs: dict = {}
+    for key, _level in NS_LEVELS:
+        if signal.getsignal(signal.SIGALRM) not in (signal.SIG_DFL, signal.SIG_IGN, None):
+            signal.alarm(WIDE_GUARD_S)      # the harness' own guard (its handler), tightened
+        r = wide_script(pydsdl, case[key], budget)
+        if "blowup" in r:
+            return {"res": "blowup", "level": key, "budget": budget, "soft": r}
+        recs[key] = r
+    return {"res": "ok", "a": recs["ty"], "a2": recs["ty0b"], "m": recs["ty3"], "b": recs["ty2"], "levels": len(recs), "budget": budget}
 
 
 # ------------------------------------------------------------------------------- namespaces
@@ -391,6 +800,90 @@ def render_ns(t, nseed: int, level: int):
     return files, extra, sorted(feats)
 
 
+def render_wide_ns(t, nseed: int, level: int):
+    """Namespace for a wide shape: (files, type trees of EVERY data type defined - service sections count as types -, features).
+    One file per composite of `t` (ns.T1 is `t` itself), now and then a second minor version with the members renamed; a
+    service whose request section consists of the members of the widest composite themselves and whose response holds them
+    in reverse order or as the variants of a union; a definition that nests ns.T1 in arrays.  Drawn from Random(nseed), and
+    dependent on the STRUCTURE of `t` only, so every capacity scale gets the same namespace up to the numbers."""
+    rng = random.Random(nseed)
+    files: dict = {}
+    feats: set = set()
+    trees: list = []
+    names = L._Names()
+    cap = SCALE_CAP[level]
+
+    def text_of(x):
+        k = x[0]
+        if k in ("prim", "void"):
+            return L.dsdl_type_text(x, {}, names)
+        if k == "farr":
+            return "%s[%d]" % (text_of(x[1]), x[2])
+        if k == "varr":
+            return "%s[<=%d]" % (text_of(x[1]), x[2])
+        return "ns.%s.1.0" % define(x)
+
+    def body(fields, ftexts, union, tail, letter):
+        lines = ["@union"] if union else []
+        for i, (f, ft) in enumerate(zip(fields, ftexts)):
+            if rng.random() < 0.1:
+                lines.append(rng.choice(DIRECTIVES))
+                feats.add("directive")
+            lines.append(ft if f[0] == "void" else "%s %s%d" % (ft, letter, i))
+        lines.append(tail)
+        return "\n".join(lines) + "\n"
+
+    def ext_of(x):
+        nodes: list = []
+        mx = B.o_max(nodes, L.s_nodes(L.strip(x), nodes))
+        return -(-mx // 2048) * 2048 + 2048 * EXT_MULT[level]
+
+    def define(x):
+        name = names.fresh()
+        inner = x[1] if x[0] == "delim" else x
+        ftexts = [text_of(f) for f in inner[1]]
+        tail = "@sealed" if x[0] != "delim" else "@extent %d" % x[2]
+        files["%s.1.0.dsdl" % name] = body(inner[1], ftexts, inner[0] == "union", tail, "f")
+        trees.append(x)
+        if rng.random() < 0.3:
+            files["%s.1.1.dsdl" % name] = body(inner[1], ftexts, inner[0] == "union", tail, "g")
+            trees.append(x)
+            feats.add("minor:rename")
+        return name
+
+    define(t)
+    widest = max((x[1] if x[0] == "delim" else x for x in composites(t)), key=lambda x: len(x[1]))
+    members = [f for f in widest[1] if f[0] in ("prim", "void", "farr", "varr") and (f[0] not in ("farr", "varr") or f[1][0] == "prim")]
+    if members and rng.random() < 0.75:
+        req = ["struct", members]
+        back = [f for f in reversed(members) if f[0] != "void"]
+        resp = ["union", back] if len(back) >= 2 and rng.random() < 0.5 else ["struct", back]
+        secs = []
+        for sec, letter in ((req, "q"), (resp, "r")):
+            tail = "@sealed"
+            if rng.random() < 0.4:
+                sec = ["delim", sec, ext_of(sec)]
+                tail = "@extent %d" % sec[2]
+            trees.append(sec)
+            inner = sec[1] if sec[0] == "delim" else sec
+            secs.append(body(inner[1], [text_of(f) for f in inner[1]], inner[0] == "union", tail, letter))
+        files["Svc.1.0.dsdl"] = "---\n".join(secs)
+        feats.add("service:wide-sections")
+        feats.add("service:response-" + resp[0])
+    how = rng.choice(["varr", "farr", "plain", "both", None])
+    if how:
+        fs = {"varr": [["varr", t, cap]], "farr": [["farr", t, 3]], "plain": [t], "both": [["farr", t, 2], t]}[how]
+        fs.insert(rng.randrange(len(fs) + 1), _U8)
+        holder = ["struct", fs]
+        files["Holder.1.0.dsdl"] = "".join(
+            "%s h%d\n" % ({"varr": "ns.T1.1.0[<=%d]" % (f[2] if f[0] == "varr" else 0), "farr": "ns.T1.1.0[%d]" % (f[2] if f[0] == "farr" else 0),
+                           "prim": "saturated uint8"}.get(f[0], "ns.T1.1.0"), i) for i, f in enumerate(fs)) + "@sealed\n"
+        trees.append(holder)
+        feats.add("holder:" + how)
+    feats.add("files:%s" % ("<=4" if len(files) <= 4 else "<=10" if len(files) <= 10 else ">10"))
+    return files, trees, sorted(feats)
+
+
 _WARM = [False]
 
 
@@ -422,19 +915,21 @@ def query(pydsdl, ty, ty2, out: list) -> None:
     out.append(hash(ty) == hash(ty2))
 
 
-def ns_script(pydsdl, t, nseed: int, level: int) -> dict:
-    """Write the namespace, read it twice and run the property's queries on every type; returns the measured work."""
+def ns_script(pydsdl, t, nseed: int, level: int, wide: bool = False, budget: typing.Optional[int] = None) -> dict:
+    """Write the namespace, read it twice and run the property's queries on every type; returns the measured work.
+    `budget` (wide shapes): the counters give up beyond it (Blowup)."""
     import tempfile
     from pathlib import Path
 
-    files, _sections, _feats = render_ns(t, nseed, level)
+    files, _sections, _feats = (render_wide_ns if wide else render_ns)(t, nseed, level)
     with tempfile.TemporaryDirectory() as d:
         root = Path(d) / "ns"
         root.mkdir()
         for fn, text in files.items():
             (root / fn).write_text(text)
-        with Meter(pydsdl) as m:
+        with Meter(pydsdl, limit=budget, calls_limit=None if budget is None else 4 * budget + 1_000_000) as m:
             t0 = time.time()
+            m.where = "reading the namespace"
             types = pydsdl.read_namespace(root, print_output_handler=lambda *a: None)
             types2 = pydsdl.read_namespace(root, print_output_handler=lambda *a: None)
             build = m.snapshot()
@@ -445,12 +940,17 @@ def ns_script(pydsdl, t, nseed: int, level: int) -> dict:
             for ty, ty2 in pairs:
                 if main_items is None and len(out) > 4:
                     main_items = m.snapshot()[0] - build[0]
+                m.where = "the layout queries on %s" % ty
                 if isinstance(ty, pydsdl.ServiceType):
                     query(pydsdl, ty.request_type, ty2.request_type, out)
                     query(pydsdl, ty.response_type, ty2.response_type, out)
                     out += [bool(ty == ty2), hash(ty) == hash(ty2)]
                 else:
                     query(pydsdl, ty, ty2, out)
+            if wide:      # lookups of every type of the second reading among those of the first
+                m.where = "dict lookup of the types"
+                table = {ty: i for i, (ty, _ty2) in enumerate(pairs) if not isinstance(ty, pydsdl.ServiceType)}
+                out += [table.get(ty2) == i for i, (_ty, ty2) in enumerate(pairs) if not isinstance(ty2, pydsdl.ServiceType)]
             total = m.snapshot()
             wall = time.time() - t0
             degraded = list(m.degraded)
@@ -463,8 +963,8 @@ def ns_script(pydsdl, t, nseed: int, level: int) -> dict:
 
 def grows(small: dict, large: dict) -> typing.Optional[str]:
     """The two scales differ in nothing but the repetition counts: same enumeration work, same calls (up to noise)."""
-    for key in ("items", "leaf", "build_items", "build_leaf"):
-        if large[key] > small[key]:
+    for key in ("items", "leaf", "build_items", "build_leaf", "x_items", "x_leaf"):
+        if large.get(key, 0) > small.get(key, 0):
             return "%s is %d at the smaller and %d at the larger capacities" % (key, small[key], large[key])
     if large.get("calls", 0) > 1.05 * small.get("calls", 0) + 200:
         return "%d calls at the smaller and %d at the larger capacities" % (small.get("calls", 0), large.get("calls", 0))
@@ -477,10 +977,17 @@ def ns_impl(pydsdl, case) -> dict:
     _warm(pydsdl)
     out: dict = {"res": "ok"}
     recs = {}
+    wide = bool(case.get("wide"))
+    budget = None
+    if wide:      # the budget of the SMALLEST scale (every definition is built in both readings): every scale has to live within it
+        budget = out["budget"] = 2 * wide_budget(render_wide_ns(case["ty"], case["nseed"], 0)[1], False)
     for key, level in NS_LEVELS:
         if signal.getsignal(signal.SIGALRM) not in (signal.SIG_DFL, signal.SIG_IGN, None):
             signal.alarm(NS_GUARD_S)      # the harness' own guard (its handler), tightened: a reading is a matter of milliseconds
-        recs[key] = ns_script(pydsdl, case[key], case["nseed"], level)
+        try:
+            recs[key] = ns_script(pydsdl, case[key], case["nseed"], level, wide, budget)
+        except Blowup as ex:
+            return {"res": "blowup", "level": key, "budget": budget, "soft": {"blowup": str(ex)}}
         if key == "ty" and recs[key]["expands"]:
             break      # an expanding reader is not given larger capacities
         if key == "ty0b" and grows(recs["ty"], recs["ty0b"]):
@@ -523,8 +1030,13 @@ def gen_ns_case(rng, prop):
 
 
 def gen_case(rng, prop):
-    if rng.random() < 0.2:
+    r = rng.random()
+    if r < 0.2:
         return gen_ns_case(rng, prop)
+    if r < 0.32:
+        return gen_wide_case(rng, prop, ns=False)
+    if r < 0.38:
+        return gen_wide_case(rng, prop, ns=True)
     for _ in range(200):
         shape = gen_shape(rng, rng.choice([1, 2, 2, 3, 3, 4]), top=True)
         try:
@@ -563,6 +1075,21 @@ class CostSuite(common.Suite):
             for key, level in NS_LEVELS:
                 c[key] = scale(sh, level, random.Random(0))
             out.append(c)
+        # wide shapes: many capacity-carrying members side by side (constructors and namespaces)
+        u3 = ["prim", 3, "uintsat"]
+        wides = [("struct", ["struct", [["varr", u8, 1] for _ in range(14)]]),
+                 ("struct", ["struct", [["varr", [b1, u3, u8][i % 3], 1] for i in range(12)]]),
+                 ("union", ["union", [["varr", [b1, u8][i % 2], 1] for i in range(20)]]),
+                 ("delim-struct", ["delim", ["struct", [["varr", b1, 1] for _ in range(10)] + [u8]], 0]),
+                 ("nested-array", ["struct", [["farr", ["struct", [["varr", u8, 1] for _ in range(12)]], 1], u8]])]
+        for i, (form, sh) in enumerate(wides):
+            for ns in (False, True):
+                c = {"kind": "ns" if ns else "wide", "wide": form, "shape": sh, "sseed": i}
+                if ns:
+                    c["nseed"] = i
+                for key, level in NS_LEVELS:
+                    c[key] = scale(sh, level, random.Random(i))
+                out.append(c)
         return out
 
     def run_impl(self, case):
@@ -572,6 +1099,13 @@ class CostSuite(common.Suite):
                 return ns_impl(pydsdl, case)
             except (common._Timeout, MemoryError):
                 raise      # the harness turns these into outcomes of their own
+            except Exception as ex:
+                return {"res": "exc:" + type(ex).__name__, "soft": str(ex)[:300]}
+        if case.get("kind") == "wide":
+            try:
+                return wide_impl(pydsdl, case)
+            except (common._Timeout, MemoryError):
+                raise
             except Exception as ex:
                 return {"res": "exc:" + type(ex).__name__, "soft": str(ex)[:300]}
         try:
@@ -607,20 +1141,28 @@ class CostSuite(common.Suite):
         if impl.get("timeout") or impl.get("memory_error"):
             return "%s did not finish: %s" % ("reading the namespace and the layout queries" if case.get("kind") == "ns" else "the layout queries",
                                               "time guard exceeded" if impl.get("timeout") else "more than 2 GiB of memory requested")
+        if impl.get("res") == "blowup":
+            # the budget is the oracle's own (SpecCost of the smallest scale, times WIDE_SLACK): recomputed here, not taken from the outcome
+            budget = self.budget(case)
+            lv = impl.get("level")
+            return ("work explodes on a wide definition: %s; the budget for this shape at ANY capacity is %d integers (%d times the uncached "
+                    "pairwise symbolic work); capacity scale %s; type %s" % (
+                        (impl.get("soft") or {}).get("blowup"), budget, WIDE_SLACK, lv, type_text(case[lv])[:400] if lv in case else "?"))
         if impl.get("res") != "ok":
             return "valid type not analysed: %s %s" % (impl.get("res"), impl.get("soft"))
         a, b, m = impl["a"], impl["b"], impl["m"]
         if a["expands"] or b["expands"] or m["expands"]:
             return "numerical expansion was triggered %d/%d/%d times by %s" % (
-                a["expands"], m["expands"], b["expands"], "reading the namespace and layout queries" if "a2" in impl else "layout queries")
+                a["expands"], m["expands"], b["expands"], "reading the namespace and layout queries" if case.get("kind") == "ns" else "layout queries")
         if "a2" in impl:
             # capacities of a few hundred and of tens of thousands: same (16-bit) prefixes, congruent counts
             g = grows(a, impl["a2"])
             if g:
-                return "work grows with capacity (reading a namespace, a few hundred vs tens of thousands of elements): %s" % g
-        for key in ("items", "leaf", "build_items", "build_leaf"):
+                return "work grows with capacity (%s, a few hundred vs tens of thousands of elements): %s" % (
+                    "reading a namespace" if case.get("kind") == "ns" else "layout queries", g)
+        for key in ("items", "leaf", "build_items", "build_leaf", "x_items", "x_leaf"):
             # capacities just above 2**32 and up to 2**63 give identical layouts up to the counts: no growth at all
-            if b[key] > m[key]:
+            if b.get(key, 0) > m.get(key, 0):
                 return "work grows with capacity: %s is %d for capacities just above 2**32 and %d for capacities up to 2**63" % (key, m[key], b[key])
             # (capacities of a few hundred get narrower length prefixes, hence other residues: their work is compared
             #  with the model's cost only, see compare())
@@ -630,6 +1172,14 @@ class CostSuite(common.Suite):
             return "work grows with capacity: the query script makes %d calls for capacities just above 2**32 and %d for capacities up to 2**63" % (m.get("calls", 0), b.get("calls", 0))
         if b["items"] + b["leaf"] + b["build_items"] + b["build_leaf"] > WORK_BUDGET:
             return "analysis enumerated %d items (budget %d)" % (b["items"] + b["leaf"] + b["build_items"] + b["build_leaf"], WORK_BUDGET)
+        if case.get("wide"):
+            budget = self.budget(case)
+            for name, rec in (("a few hundred", a), ("tens of thousands", impl["a2"]), ("just above 2**32", m), ("up to 2**63", b)):
+                w = sum(rec.get(k, 0) for k in ("items", "leaf", "build_items", "build_leaf", "x_items", "x_leaf"))
+                if w > budget:
+                    return "work explodes on a wide definition: %d integers enumerated at capacities %s; the budget for this shape at ANY capacity is %d" % (w, name, budget)
+            if impl["a2"]["answers"][3:] != a["answers"][3:]:
+                return "alignment answers differ between capacity scales: %s vs %s" % (a["answers"][3:], impl["a2"]["answers"][3:])
         if "a2" in impl and impl.get("levels") != len(NS_LEVELS):
             return "the namespace was not read at every capacity scale (%s of %d)" % (impl.get("levels"), len(NS_LEVELS))
         if max(a["wall"], b["wall"], m["wall"]) > TIME_BUDGET_S:
@@ -638,6 +1188,12 @@ class CostSuite(common.Suite):
             return "alignment answers differ between capacity scales: %s vs %s" % (m["answers"][3:], b["answers"][3:])
         return None
 
+    @staticmethod
+    def budget(case) -> int:
+        if case.get("kind") == "ns":
+            return 2 * wide_budget(render_wide_ns(case["ty"], case["nseed"], 0)[1], False)
+        return wide_budget([case["ty"]])
+
     def signature(self, case, desc, prop):
         import re
         return "cost/" + re.sub(r"[0-9]+", "N", desc.split(":")[0])[:60]
@@ -645,12 +1201,13 @@ class CostSuite(common.Suite):
     def shrink(self, case):
         if "shape" not in case:
             return
-        if case.get("kind") == "ns":
+        if case.get("kind") in ("ns", "wide"):
             for sh in L.shrink_ty(case["shape"]):
                 if sh[0] not in ("struct", "union", "delim"):
                     continue
                 try:
-                    c = {"kind": "ns", "shape": sh, "sseed": case["sseed"], "nseed": case["nseed"]}
+                    c = {k: case[k] for k in ("kind", "wide", "sseed", "nseed") if k in case}
+                    c["shape"] = sh
                     for key, level in NS_LEVELS:
                         c[key] = scale(sh, level, random.Random(case["sseed"]))
                     if all(L.s_valid(L.strip(c[k])) for k, _ in NS_LEVELS):
@@ -658,7 +1215,7 @@ class CostSuite(common.Suite):
                 except Exception:
                     continue
             for ns2 in range(8):
-                if ns2 != case["nseed"]:
+                if "nseed" in case and ns2 != case["nseed"]:
                     yield dict(case, nseed=ns2)
             return
         for sh in L.shrink_ty(case["shape"]):
@@ -672,10 +1229,20 @@ class CostSuite(common.Suite):
                 continue
 
     def features(self, case, impl):
-        yield "kind:" + case.get("kind", "constructors")
+        yield "kind:" + case.get("kind", "constructors") + ("+wide" if case.get("kind") == "ns" and case.get("wide") else "")
+        if case.get("wide"):
+            yield "wide:" + str(case["wide"])
+            n = max((len((x[1] if x[0] == "delim" else x)[1]) for x in composites(case["shape"])), default=0)
+            yield "wide:members:" + ("<=16" if n <= 16 else "<=28" if n <= 28 else "<=40" if n <= 40 else ">40")
+            ws = {f[1][1] for x in composites(case["shape"]) for f in (x[1] if x[0] == "delim" else x)[1] if f[0] == "varr" and f[1][0] == "prim"}
+            for name, hit in (("1-bit", 1 in ws), ("8-bit", 8 in ws), ("odd", any(w % 8 and w != 1 for w in ws)), ("multi-byte", any(w % 8 == 0 and w > 8 for w in ws))):
+                if hit:
+                    yield "wide:elements:" + name
+            if impl.get("res") == "blowup":
+                yield "wide:blowup"
         if case.get("kind") == "ns":
             try:
-                for f in render_ns(case["ty"], case["nseed"], 0)[2]:
+                for f in (render_wide_ns if case.get("wide") else render_ns)(case["ty"], case["nseed"], 0)[2]:
                     yield "ns:" + f
             except Exception:
                 yield "ns:unrenderable"
